@@ -33,7 +33,7 @@ func vpObjectsKept(before []vpObjFile) bool {
 	return ok
 }
 
-const vpRefAlpha = "a-zA-Z0-9_.-"
+const vpRefAlpha = "a-zA-Z0-9_.:% -" // incl. blank (also trailing), colon and percent: all legal in branch names
 
 // vpPrefix builds a small reachable repository state; returns ids of (a commit, a tree, a blob) and the tracked path.
 func vpPrefix(kind int) (commit, tree, blob []byte, path string) {
